@@ -10,7 +10,7 @@ GLOBAL_TRUSTED = [
 ]
 
 # commits in /repo that add the feature-guarded hooks (filled by hand when a hook commit is made)
-HOOK_COMMITS = ["acd1c14 verif hook (bft)", "2f5a42f verif hook (network, concurrency): feature + stubs", "c2c2d23 verif hook (network): entry stub", "3658eea verif hook (bft): subscribe_proposer", "5071764 verif hook (network): wrappers", "bcba520 verif hook (concurrency): scope/ctx events", "c137d38 verif hook (network): pool lock", "25194de verif hook (network): address-book lock", "2e47b7f verif hook (bft): run_replica", "05cc44f verif hook (network): rpc capability list", "fd84299 verif hook (network): raw gossip peer for block fetch"]
+HOOK_COMMITS = ["acd1c14 verif hook (bft)", "2f5a42f verif hook (network, concurrency): feature + stubs", "c2c2d23 verif hook (network): entry stub", "3658eea verif hook (bft): subscribe_proposer", "5071764 verif hook (network): wrappers", "bcba520 verif hook (concurrency): scope/ctx events", "c137d38 verif hook (network): pool lock", "25194de verif hook (network): address-book lock", "2e47b7f verif hook (bft): run_replica", "05cc44f verif hook (network): rpc capability list", "fd84299 verif hook (network): raw gossip peer for block fetch", "af487e1 verif hook (network): mux_recv_named"]
 
 # reason shown in MANIFEST.not_applicable for properties that are not claimed (default text otherwise)
 NOT_CLAIMED = {}
